@@ -33,6 +33,12 @@ CHECKS = {
     "C07": ("proof",
             "Lean theorems C07_* over Rat: clamp / parent-midpoint repair land in any box with left ≤ right and change only outside coordinates; binomial structure; donor lengths, coordinate forms and F = 0 collapse for all six strategies; every DE/jDE/SHADE trial is in the box; greedy replacement and the box invariant over any number of generations. Tied by exact correspondence of repair, donors (integer populations, dyadic F, mirrored index draws) and binomial, and by runs of DE/jDE/SHADE on objectives that reward leaving the box over scalar/per-coordinate/degenerate/asymmetric boxes.",
             "§6 C07", "Lean 4 proof + exact operator correspondence + box observation on runs", "linear donor forms hold over Rat; doubles are compared on exactly representable inputs"),
+    "C08": ("proof",
+            "Lean theorems C08_* for all trees, arity mixes and random choices: subtree/concat preserve well-formedness; depth of a splice bounded by hole level + depth; standard (with its guard), one-point and uniform crossover (through the common-region theory), point, grow, swap (argument permutation), shrink mutation and the initialisers are closed under WF and the depth bound, with their naming clauses. Tied by exact replay of every operator with mirrored random choices on exhaustive small shapes and random trees, independent naming-clause oracles, and GP/SelfCGP/PDPGP runs over the operator pool with every evaluated tree checked (NUMBA_BOUNDSCHECK=1).",
+            "§6 C08", "Lean 4 proof (rose-tree refinement of the flat encoding) + exact operator correspondence", ""),
+    "C09": ("proof",
+            "Lean theorems C09_*: the scan behind find_end_subtree consumes exactly one subtree per open slot; flat lists of rose trees are exactly the well-formed lists (parser, injectivity, contexts); subtree/concat/get_args_id/get_levels/get_max_level equal their recursive definitions; concat∘subtree = id; stack evaluation and printing equal the recursive meaning; batch = pointwise; set_terminals rebinding; structural equality; the coded two-tree and k-tree common-region loops equal the recursive definition. Tied by exhaustive correspondence over all tree shapes up to a size bound and every node index, an independent recursive reference, and the function table against math.",
+            "§6 C09", "Lean 4 proof + exhaustive small correspondence; numeric function table by reference (exploration)", "the named numeric functions are floats: compared against Python's math, not proved"),
     "C10": ("proof",
             "Lean theorems C10_* (bit/Gray round trips for all widths, one-bit adjacency of successive Gray codes, grid formula, endpoints, box, injectivity, encode∘decode = id, decode∘encode nearest grid point, fixed output length, bits-from-step) over exact rationals; tied to SamplingGrid/GrayCode by exhaustive correspondence over all bit strings of small widths and all small bits-per-variable vectors.",
             "§6 C10", "Lean 4 proof + exact model/implementation correspondence (exhaustive small widths)", "np.rint ties and float rounding of left+h*k observed at 1e-9, not proved"),
